@@ -6,6 +6,7 @@ import ICS.Spec.C12
 import ICS.Spec.C15
 import ICS.Spec.Slash
 import ICS.Spec.C01
+import ICS.Spec.C16
 namespace ICS.Driver
 open ICS ICS.Provider ICS.Epoch
 
@@ -257,6 +258,35 @@ def parseInfrArgs (l : Line) : Option Infr :=
            dt := if l.has "dt" then parseSJArg (l.get "dt") else none }
   else none
 
+def parseBal (s : String) : Rewards.Bal :=
+  (splitNE s ",").filterMap fun t => match t.splitOn ":" with | [a, b] => some (a, nat0 b) | _ => none
+
+def renderBal (b : Rewards.Bal) : String :=
+  ",".intercalate ((isort (fun (a b : String × Nat) => decide (a.1 ≤ b.1)) b).map fun e => s!"{e.1}:{e.2}")
+
+def creditsOf (p : ProvImpl) : Rewards.Credits :=
+  p.cs.flatMap fun e => (parseBal (e.2.get "alloc")).map fun a => ((e.1, a.1), a.2)
+
+def renderAlloc (cr : Rewards.Credits) (c : String) : String :=
+  ",".intercalate ((["stake", "photon", "mote"].filterMap fun d =>
+    let v := Rewards.getCredit cr c d
+    if v == 0 then none else some s!"{d}:{v}"))
+
+def parseDecStr (s : String) : Nat :=
+  match s.splitOn "." with
+  | [a, b] => nat0 a * 10^18 + nat0 (b ++ String.mk (List.replicate (18 - b.length) '0'))
+  | [a] => nat0 a * 10^18
+  | _ => 0
+
+/-- "<amount><denom>" → (amount string, denom) -/
+def splitCoin (s : String) : String × String :=
+  let cs := s.toList
+  let num := cs.takeWhile fun c => c.isDigit || c == '.'
+  (String.mk num, String.mk (cs.drop num.length))
+
+def renderDecCoin (amt : Nat) (denom : String) : String :=
+  if amt == 0 then "" else decString amt ++ denom
+
 structure ProvDrv where
   impl : ProvImpl := {}
   engine : List ValSet.Val := []      -- the consensus engine's view: all returned updates folded
@@ -335,6 +365,60 @@ def stepProvCore (d : ProvDrv) (a : Acc) (s : Step) : ProvDrv × Acc :=
     let a := if thr'.meter != thr.meter then a.tag "meter-replenished" else a
     let thrA : Throttle := { thr with meter := int0 (after.g.get "meter"), candidate := int0 (after.g.get "cand") }
     let a := a.spec s.lineNo "C09.begin-block-meter" (Spec.Slash.beginBlockMeter thr thrA st.now (allowance thr (totalPower st)))
+    -- BeginBlockRD: reward allocation (after launches / removals of this block)
+    let tax := parseDecStr (before.g.get "tax")
+    let eligBlocks := nat0 (before.g.get "rparams") * st.epoch
+    let rcons := (consumersWithClients st3).map fun x =>
+      (x.id, x.valset, splitNE ((before.cfields x.id).get "cdenoms") "+")
+    let ar := if st.height > 1 then
+        Rewards.allocateTokens rcons (splitNE (before.g.get "denoms") ",") (creditsOf before)
+          (parseBal (before.g.get "pool")) (parseBal (before.g.get "distr")) (parseBal (before.g.get "cp")) tax st.height eligBlocks
+      else { credits := creditsOf before, pool := parseBal (before.g.get "pool"), distr := parseBal (before.g.get "distr"),
+             cp := parseBal (before.g.get "cp"), steps := [] }
+    let a := a.cmp s.lineNo "begin.pool" (renderBal ar.pool) (after.g.get "pool")
+    let a := a.cmp s.lineNo "begin.distr" (renderBal ar.distr) (after.g.get "distr")
+    let a := a.cmp s.lineNo "begin.cp" (renderBal ar.cp) (after.g.get "cp")
+    let a := after.cs.foldl (fun a e => a.cmp s.lineNo s!"c{e.1}.alloc" (renderAlloc ar.credits e.1) (e.2.get "alloc")) a
+    let commissionOf := fun (c : String) (v : Nat) =>
+      match (st3.get c).commission.find? (·.1 == v) with | some p => p.2 | none => "0.100000000000000000"
+    let effM := ar.steps.flatMap fun stp =>
+      (if stp.payout.sendsToDistr then [s!"banksend_consumer_rewards_pool->distribution_{if stp.payout.toDistr == 0 then "" else toString stp.payout.toDistr ++ stp.denom}"] else []) ++
+      (stp.payout.pays.map fun p => s!"allocval_v={p.v}_{renderDecCoin p.amount stp.denom}_commission={commissionOf stp.consumer p.v}") ++
+      (if stp.payout.fundsCP then [s!"fundcp_{if stp.payout.toCP == 0 then "" else toString stp.payout.toCP ++ stp.denom}"] else [])
+    let effI := (splitNE ((s.ob "r").get "effects") "|").filter fun t =>
+      t.startsWith "banksend_consumer_rewards_pool" || t.startsWith "allocval_" || t.startsWith "fundcp_"
+    let a := a.cmp s.lineNo "begin.reward-effects" ("|".intercalate effM) ("|".intercalate effI)
+    -- C16 clauses on the implementation's own balances, credits and distribution calls
+    let paidI : List (String × Nat × Nat) := effI.filterMap fun t =>
+      if t.startsWith "allocval_" then
+        match t.splitOn "_" with
+        | [_, v, coin, _] =>
+          let (amt, dn) := splitCoin coin
+          if dn == "" then none else some (dn, nat0 ((v.splitOn "=").getD 1 ""), parseDecStr amt)
+        | _ => none
+      else none
+    let a := ["stake", "photon", "mote"].foldl (fun a dn =>
+      let crOf := fun (p : ProvImpl) => ((creditsOf p).filter (·.1.2 == dn)).map (·.2) |>.sum
+      let f : Spec.C16.DenomFlow :=
+        { denom := dn,
+          poolBefore := Rewards.getBal (parseBal (before.g.get "pool")) dn, poolAfter := Rewards.getBal (parseBal (after.g.get "pool")) dn,
+          distrDelta := Rewards.getBal (parseBal (after.g.get "distr")) dn - Rewards.getBal (parseBal (before.g.get "distr")) dn,
+          cpDelta := Rewards.getBal (parseBal (after.g.get "cp")) dn - Rewards.getBal (parseBal (before.g.get "cp")) dn,
+          creditBefore := crOf before, creditAfter := crOf after,
+          paid := (paidI.filter (·.1 == dn)).map fun p => ("", p.2.1, p.2.2) }
+      let a := a.spec s.lineNo "C16.bank-conserved" (Spec.C16.bankConserved f) s!"{dn} pool {f.poolBefore}->{f.poolAfter} distr+{f.distrDelta} cp+{f.cpDelta}"
+      let a := a.spec s.lineNo "C16.credit-conserved" (Spec.C16.creditConserved f) s!"{dn} credit {f.creditBefore}->{f.creditAfter} out {f.distrDelta + f.cpDelta}"
+      let a := a.spec s.lineNo "C16.never-overpay" (Spec.C16.neverOverpay f) s!"{dn} paid {(f.paid.map (·.2.2)).sum} moved {f.distrDelta}"
+      let a := a.spec s.lineNo "C16.nothing-dangling" (Spec.C16.nothingDangling f) s!"{dn} paid {(f.paid.map (·.2.2)).sum} moved {f.distrDelta}"
+      let registered := (splitNE (before.g.get "denoms") ",").contains dn
+      let creditsI := rcons.filterMap fun e =>
+        if registered || e.2.2.contains dn then some (e.2.1, Rewards.getCredit (creditsOf before) e.1 dn) else none
+      let a := a.spec s.lineNo "C16.paid-within-eligible-credits"
+        (Spec.C16.paidWithinEligibleCredits ((paidI.filter (·.1 == dn)).map (·.2)) creditsI st.height eligBlocks) s!"{dn} paid {paidI.filter (·.1 == dn)}"
+      -- nothing leaves the pool in a denom that is neither registered nor allow-listed by a credited consumer
+      let a := a.spec s.lineNo "C16.allowed-denoms-only" (!creditsI.isEmpty || (f.poolAfter == f.poolBefore && f.creditAfter == f.creditBefore)) s!"{dn}"
+      a) a
+    let a := if !ar.steps.isEmpty then { (a.tag "rewards-allocated") with nontrivial := a.nontrivial + 1 } else a
     let launched := st3.consumers.filter fun x => x.phase == .launched && (st.get x.id).phase != .launched
     let a := if launched.isEmpty then a else (a.tag "launch-ok")
     let a := if (st3.consumers.filter fun x => x.phase == .deleted && (st.get x.id).phase != .deleted).isEmpty then a else a.tag "deleted"
@@ -409,6 +493,33 @@ def stepProvCore (d : ProvDrv) (a : Acc) (s : Step) : ProvDrv × Acc :=
       let a := a.spec s.lineNo "C08.ack-cases" (Spec.Slash.ackCases dl)
       let a := a.spec s.lineNo "C09.meter-rule" (Spec.Slash.meterRule dl)
       ({ impl := after }, compareState a s.lineNo r.1 after lifecycleFields lifecycleGlobals)
+  | "reward" =>
+    let c := s.op.get "c"
+    let denom := s.op.get "denom"
+    let amt := s.op.nat "amt"
+    let okT := s.op.get "fail" != "1"
+    let a := a.cmp s.lineNo "reward.ack" (if okT then "ok" else "error") ((s.ob "r").get "ack")
+    let toPool := s.op.get "to" != "other"
+    -- the consumer to credit: the memo's consumer id if the memo is a reward memo, else the
+    -- consumer whose client underlies the transfer channel, provided it has a CCV channel
+    let viaC : Option String :=
+      if s.op.has "via" then
+        match (st.get (s.op.get "via")).client with
+        | some cl => match st.client2c.find? (·.1 == cl) with
+          | some e => if (st.get e.2).channel.isSome then some e.2 else none
+          | none => none
+        | none => none
+      else none
+    let c := if c != "-" && s.op.get "memo" != "plain" then c else viaC.getD "-"
+    let known := c != "-" && (st.get c).phase != .unspecified
+    let pool := parseBal (before.g.get "pool")
+    let poolM := if okT && toPool then Rewards.setBal pool denom (Rewards.getBal pool denom + amt) else pool
+    let a := a.cmp s.lineNo "reward.pool" (renderBal poolM) (after.g.get "pool")
+    let cr := creditsOf before
+    let crM := if okT && toPool && known then Rewards.setCredit cr c denom (Rewards.credit (Rewards.getCredit cr c denom) amt) else cr
+    let a := after.cs.foldl (fun a e => a.cmp s.lineNo s!"c{e.1}.alloc" (renderAlloc crM e.1) (e.2.get "alloc")) a
+    let a := if okT && toPool && known then { (a.tag "reward-credited") with nontrivial := a.nontrivial + 1 } else a.tag "reward-not-credited"
+    ({ impl := after }, a)
   | "timeout" | "ackerr" =>
     match timeoutOrErrorAck st (s.op.get "ch") with
     | none => ({ impl := after }, (a.tag "timeout-unknown").cmp s.lineNo "timeout.res" "err" res)
@@ -477,7 +588,7 @@ def viewOf (b : State) (f : Fields) (x : Consumer) : Spec.Epoch.View :=
     optin := x.optin, minpow := x.minpow, ka := x.ka, valset := x.valset }
 
 /-- C02 / C03 / C04 on every validator set the implementation computed in this operation -/
-def epochSpecs (a : Acc) (lineNo : Nat) (op : Line) (b t : State) (after : ProvImpl) : Acc :=
+def epochSpecs (a : Acc) (lineNo : Nat) (op : Line) (b t : State) (after : ProvImpl) (sentRaw : String := "") : Acc :=
   let isEpoch := op.name == "end" && b.height % b.epoch == 0
   after.cs.foldl (fun a e =>
     let x := t.get e.1
@@ -491,7 +602,14 @@ def epochSpecs (a : Acc) (lineNo : Nat) (op : Line) (b t : State) (after : ProvI
       let d := s!"consumer={e.1} valset={renderCVals x.valset} bonded={fmtNatList w.bonded} m={w.m}"
       -- C01: what is queued for the consumer is exactly the difference between its previous and its
       -- new stored set (nothing is queued iff nothing changed); at launch the genesis carries the set
-      let newPkts := x.pend.drop xb.pend.length
+      -- (packets created in this block are either still pending or, with an established channel,
+      -- were sent in this same EndBlock together with everything that was pending)
+      let sentPk : List Packet := (splitNE sentRaw ";").filterMap fun t =>
+        match t.splitOn "/" with
+        | [ch, _, id, u, ak] =>
+          if some ch == x.channel then some { id := nat0 id, updates := parseUpd u "+", acks := (splitNE ak "+").map nat0 } else none
+        | _ => none
+      let newPkts := (sentPk ++ x.pend).filter fun p => !(xb.pend.any (·.id == p.id))
       let upd := (newPkts.flatMap (·.updates))
       let a := if op.name == "end" then
           a.spec lineNo "C01.packet-is-diff"
@@ -554,7 +672,7 @@ def stepProv (d : ProvDrv) (a : Acc) (s : Step) : ProvDrv × Acc :=
     let b := before.toState
     let t := r.1.impl.toState
     let a := provInvariants r.2 s.lineNo s.op ok b t
-    let a := if ok && !d.armed then epochSpecs a s.lineNo s.op b t r.1.impl else a
+    let a := if ok && !d.armed then epochSpecs a s.lineNo s.op b t r.1.impl ((s.ob "r").get "sent") else a
     -- C11: removal happens one unbonding period after the FIRST stop
     let firstDue := t.consumers.foldl (fun (fd : List (String × Int)) x =>
       if x.phase == .stopped && (b.get x.id).phase == .launched && !fd.any (·.1 == x.id) then fd ++ [(x.id, b.now + b.unbonding)] else fd) d.firstDue
